@@ -415,6 +415,8 @@ def parse_verus_errors(stderr: str) -> list[dict]:
         m = SNIP_RE.match(line)
         if m:
             cur["snips"].append((int(m.group(1)), m.group(2).strip()))
+        elif re.search(r"failed (this|precondition)", line) and cur["snips"]:
+            cur["clause"] = cur["snips"][-1][1]
     return [e for e in errs if not e["msg"].startswith("aborting due to")]
 
 
@@ -462,9 +464,9 @@ def run_vunit(u: VUnit, scratch, tier: str):
     for e in errs:
         lab = label_of(line_map, e["locs"][0]) if e["locs"] else "?"
         # the most specific clause text: the last snippet line (Verus prints the failed clause second)
-        clause = ""
-        if e["snips"]:
-            clause = e["snips"][-1][1]
+        clause = e.get("clause", "")
+        if not clause and e["snips"]:
+            clause = e["snips"][0][1]
         kind = e["msg"]
         if re.search(r"postcondition|precondition|invariant|decreases|assertion|overflow|underflow|bounds|recommend|termination|panic|unreachable", kind):
             by_label.setdefault(lab, []).append((kind, clause, "\n".join(e["raw"][:25])))
